@@ -247,7 +247,7 @@ func roundTripJudge(c *Ctx, cs *Case, T []*ref.Node) bool {
 			return false
 		}
 		if got != want {
-			c.Violate(Violation{Why: fmt.Sprintf("parse(print(T)) != T (variant %d: %s parentheses)", vi, []string{"minimal", "full", "minimal, word operators"}[vi%3]), Expected: trunc(want, 500), Observed: trunc(got, 500), Signature: "roundtrip-tree", Case: Case{Gen: cs.Gen, Src: src}})
+			c.Violate(Violation{Why: fmt.Sprintf("parse(print(T)) != T (variant %d: %s parentheses)", vi, []string{"minimal", "full", "minimal, word operators", "minimal, CRLF line ends"}[vi%4]), Expected: trunc(want, 500), Observed: trunc(got, 500), Signature: "roundtrip-tree", Case: Case{Gen: cs.Gen, Src: src}})
 			return false
 		}
 		c.Count("roundtrips", 1)
@@ -394,6 +394,10 @@ func c01Run(c *Ctx) {
 			continue
 		}
 		cs := &Case{Gen: "random-tree-roundtrip", Src: ref.PrintOpts{}.Program(T), Alt: []string{ref.PrintOpts{Full: true}.Program(T), ref.PrintOpts{AltLogical: true}.Program(T)}}
+		// the same text saved with CRLF line ends and tab indentation: line terminators and blanks are not tokens
+		if crlf := "\t" + strings.ReplaceAll(cs.Src, "\n", "\r\n\t") + "\r\n"; !strings.Contains(cs.Src, "\"") && !strings.Contains(cs.Src, "//") {
+			cs.Alt = append(cs.Alt, crlf)
+		}
 		c.Begin(cs)
 		if roundTripJudge(c, cs, T) {
 			c.Nontrivial(cs.Src)
